@@ -99,7 +99,15 @@ func u8p(v uint8) *uint8    { return &v }
 // genPolicy draws a policy of the requested kind over the prefix pool.
 func (g *gen) genPolicy(kind string) *PolicySpec {
 	r := g.r
-	pool := g.prefixes
+	// patterns never have length 0: whether an IPv4 default route "contains" IPv6 prefixes is a
+	// question about prefix arithmetic (C15, not simulated), and import/export policies apply to
+	// both families of a session
+	var pool []Prefix
+	for _, p := range g.prefixes {
+		if p.Len >= 8 {
+			pool = append(pool, p)
+		}
+	}
 	switch kind {
 	case "accept":
 		return AcceptAll()
@@ -112,9 +120,9 @@ func (g *gen) genPolicy(kind string) *PolicySpec {
 			m.Min = p.Len
 			m.Max = p.Len + uint8(r.Intn(9))
 		}
-		if r.Chance(0.5) && p.Len >= 8 {
+		if r.Chance(0.5) && p.Len >= 12 {
 			// widen the pattern so that it covers several pool prefixes
-			m.Pfx = Prefix{V6: p.V6, Addr: p.Addr, Len: p.Len - uint8(1+r.Intn(8))}.Masked()
+			m.Pfx = Prefix{V6: p.V6, Addr: p.Addr, Len: p.Len - uint8(1+r.Intn(int(p.Len)-7))}.Masked()
 			if m.Kind == "exact" {
 				m.Kind = "orlonger"
 			}
@@ -269,6 +277,15 @@ func (g *gen) genAttrs(pi int) *AttrSpec {
 	if pc.AS == g.plan.DUT.LocalAS {
 		a.LocalPref = u32p(uint32(100 + 10*r.Intn(3)))
 	}
+	if rolesActive(pc) && r.Chance(0.4) {
+		// eligible uses of OTC (RFC 9234 section 5): any value from a provider or RS, the peer's own AS from a peer
+		switch *pc.PeerRole {
+		case roleProvider, roleRS:
+			a.OTC = u32p(64500 + uint32(r.Intn(3)))
+		case rolePeer:
+			a.OTC = u32p(pc.AS)
+		}
+	}
 	if r.Chance(g.prof.RichAttrProb) {
 		if r.Chance(0.5) {
 			a.MED = u32p(uint32(r.Intn(3) * 10))
@@ -276,7 +293,9 @@ func (g *gen) genAttrs(pi int) *AttrSpec {
 		if r.Chance(0.4) {
 			a.Communities = []uint32{65000<<16 | uint32(r.Intn(100))}
 			if r.Chance(0.3) {
-				a.Communities = append(a.Communities, pick(r, []uint32{CommNoExport, CommNoAdvertise}))
+				if wk := pick(r, []uint32{CommNoExport, CommNoAdvertise}); !g.avoidAPTrigger() {
+					a.Communities = append(a.Communities, wk)
+				}
 			}
 		}
 		if r.Chance(0.2) {
@@ -346,6 +365,18 @@ func (g *gen) connectAll() {
 
 func (g *gen) stepAnnounce(pi int) {
 	r := g.r
+	if g.avoidAPTrigger() && g.plan.Peers[pi].AddPathTX > 0 {
+		// add-path TX sessions stay receive-only unless the run explores the known trigger
+		for k := range g.plan.Peers {
+			if g.plan.Peers[k].AddPathTX == 0 {
+				pi = k
+				break
+			}
+		}
+		if g.plan.Peers[pi].AddPathTX > 0 {
+			return
+		}
+	}
 	pc := g.plan.Peers[pi]
 	v6 := pc.IPv6 && r.Chance(0.4)
 	pf := g.pickPrefixes(pi, v6)
@@ -443,7 +474,31 @@ func newGen(prop string, seed uint64, prof Profile) *gen {
 		g.plan.Sim.SkewPPM = int64(r.Intn(10001)) - 5000
 	}
 	g.genTopology()
+	// Known finding F-C08-1: on an add-path TX session, adding a path that may not be exported
+	// (own path, NO_ADVERTISE, NO_EXPORT to eBGP) withdraws every path of the prefix. Most runs
+	// with such sessions avoid the trigger so that other defects stay visible; a share explores it.
+	hasAP := false
+	for _, pc := range g.plan.Peers {
+		if pc.AddPathTX > 0 {
+			hasAP = true
+		}
+	}
+	if hasAP && r.Chance(0.15) {
+		g.plan.Params = map[string]int64{"ap_trigger": 1}
+	}
 	return g
+}
+
+func (g *gen) avoidAPTrigger() bool {
+	if g.plan.Params["ap_trigger"] == 1 {
+		return false
+	}
+	for _, pc := range g.plan.Peers {
+		if pc.AddPathTX > 0 {
+			return true
+		}
+	}
+	return false
 }
 
 // workload appends the generic mixed workload.
@@ -489,9 +544,9 @@ func (g *gen) workload() {
 			g.add(Step{GapUS: g.gap(), Kind: "dispose", Peer: pi})
 			g.lost(pi)
 		case "static_add":
-			g.add(Step{GapUS: g.gap(), Kind: "static_add", Pfx: []Prefix{pick(r, g.prefixes)}, NH: 0x0a630000 + uint32(r.Intn(3))})
+			g.add(Step{GapUS: g.gap(), Kind: "static_add", Pfx: []Prefix{pick(r, g.staticPool())}, NH: 0x0a630000 + uint32(r.Intn(3))})
 		case "static_del":
-			g.add(Step{GapUS: g.gap(), Kind: "static_del", Pfx: []Prefix{pick(r, g.prefixes)}, NH: 0x0a630000 + uint32(r.Intn(3))})
+			g.add(Step{GapUS: g.gap(), Kind: "static_del", Pfx: []Prefix{pick(r, g.staticPool())}, NH: 0x0a630000 + uint32(r.Intn(3))})
 		case "reconnect":
 			if !g.connected[pi] {
 				g.add(Step{GapUS: g.gap() + 100_000, Kind: "connect", Peer: pi})
@@ -586,4 +641,10 @@ func (g *gen) makeIneligible(pi int, st *Step) {
 		}
 		st.Ineligible = "OTC check fails for a route from a " + roleName(pr)
 	}
+}
+
+// staticPool: prefixes used for redistributed static routes. They are disjoint from the BGP
+// pool: a prefix holding both a static and a BGP path is the business of C02.
+func (g *gen) staticPool() []Prefix {
+	return []Prefix{P4(198, 51, 100, 0, 24), P4(198, 51, 100, 128, 25), P4(203, 0, 113, 0, 24)}
 }
